@@ -508,6 +508,7 @@ def run_B(case, tape):
     with C.Scratch() as root, warnings.catch_warnings():
         warnings.simplefilter("ignore")
         sim = C.new_sim(tape, root, preempt=cfg["preempt"], clock=True)
+        sim.fs.read_yields = cache["type"] == "disk"
         res = None
         with sim:
             def body():
